@@ -19,6 +19,7 @@ CHECKS = {
     "C08": ("c08", "model_checking"),
     "C10": ("c10", "model_checking"),
     "C11": ("c11", "model_checking"),
+    "C14": ("c14", "model_checking"),
     "C15": ("c15", "model_checking"),
     "C20": ("c20", "model_checking"),
 }
